@@ -15,7 +15,21 @@ CLAIMS = {
     "C03": tv("Programs whose last operation fails at a chosen sub-step; records compared after the failure; independent replay for safety."),
     "C04": tv("Labware add/remove histories; independent per-real-well ledger in exact arithmetic."),
     "C05": tv("Composition histories; independent absolute-amount ledger in exact arithmetic."),
-    "C06": tv("partition_volume on a dense dyadic grid and transfers with split volumes."),
+    "C06": proof("Theorems partition_spec (sum, 0<step<=max, exactly max(1,ceil(v/M)) steps for all rational v, M > 0), partition_zero, multi_disp_fits/unchanged about the model of partition_volume / reagent_distribution; the model is tied to /repo by the partition_volume correspondence stream (dense dyadic grid) and transfers with split volumes.",
+                 "Lean 4 theorem over all rationals + correspondence check"),
+    "C08": proof("Closed-form numbering, bijection, ID injectivity, table/resolve and inverse-numbering theorems for all geometries with <= 26 rows and any number of columns; all tables of every geometry in scope compared with Labware attributes, positions of all wells (thorough) / sampled geometries (quick).",
+                 "Lean 4 theorems for all geometries + exhaustive table correspondence"),
+    "C10": proof("mask_single/member/any/list/set_ext/rejects and EVO slot theorems (sum of distinct tip values = OR); tip table and aggregation expression tied by GenOK; all subsets / short sequences compared with prepare_aspirate_dispense_parameters.",
+                 "Lean 4 theorems + GenOK table obligations + exhaustive subset correspondence"),
+    "C12": proof("decode_encode, encode_inj, encode_length, padding_zero for all R, C <= 255 and all selections; exhaustive subsets of small geometries compared with evo_get_selection and decoded by an independent decoder.",
+                 "Lean 4 round-trip theorem + exhaustive small-geometry correspondence"),
+    "C18": proof("perm (multiset preservation), single_column, groups_sorted, rows_sorted, group_keys_complete, auto_rule, explicit_respected, invalid_mode_rejected for all triple lists; compared with partition_by_column / optimize_partition_by.",
+                 "Lean 4 theorems (List.Perm, Pairwise) + correspondence check"),
+    "C19": proof("length_eq, get_mod, zero, rejects_empty for all n and all non-empty well lists; compared with get_trough_wells.",
+                 "Lean 4 theorems + correspondence check"),
+    "C15": tv("Shift/rotate/randomise on the model vs WellShifter/WellRotator/WellRandomizer; closed-form oracle."),
+    "C17": tv("Bytes written by save()/with-block into real files vs the model's fileBytes; GenOK on open() arguments and joiner."),
+    "C20": tv("Constructor specifications (valid and one-fault invalid) on Labware/Trough vs Labware.mk?/Trough.mk?; independent consistency oracle."),
     "C07": tv("Transfer programs; independent flows/discipline decoder."),
     "C11": tv("Histories compared after every operation; prefix/aliasing/label oracle."),
     "C16": tv("Every program on EvoWorklist, FluentWorklist and BaseWorklist against one device-parametric model and against each other."),
